@@ -158,10 +158,10 @@ def new_parser(ini_path):
 
 
 def decoder_state_sig(parser):
-    dec = parser.decoder
+    dec = getattr(parser, 'decoder', None)
     if dec is None:
         return 'nodec'
-    return '%s|%s' % ('h' if dec.last_h else '-', dec.last_line)
+    return '%s|%s' % ('h' if getattr(dec, 'last_h', None) else '-', getattr(dec, 'last_line', None))
 
 
 def execute(plan):
@@ -211,7 +211,7 @@ def execute(plan):
                         else:
                             fault = None
                     elif fault['kind'] == 'lm_exc':
-                        lm = getattr(instances[i].decoder.decoder, '_lm', None)
+                        lm = getattr(getattr(getattr(instances[i], 'decoder', None), 'decoder', None), '_lm', None)
                         if lm is None:
                             fault = None
                         else:
